@@ -1740,6 +1740,7 @@ func (e *Extractor) Document() (*model.Document, []Warning, error) {
 		}
 
 		doc.AddPage(modelPage)
+		modelPage.Number = pageNum + 1 // AddPage renumbers sequentially; keep the source page number
 	}
 
 	return doc, e.warnings, nil
